@@ -148,7 +148,7 @@ recv = Fn(F, ["recv"], ret="r", extra_params="Tracked(k): Tracked<&mut K>",
                "&& exists|n: nat| skipped(*old(k), old(k).q, fd, n, final(k).q)", ["C12", "C03"]),
         Clause("unix.recv.loop/ensures.would_block_only_when_nothing_deliverable_was_queued",
                "r matches Err(UnixError::Errno(c)) ==> ((c == libc::EAGAIN || c == libc::EWOULDBLOCK) ==> final(k).q[fd].len() == 0\n"
-               "&& exists|n: nat| skipped(*old(k), old(k).q, fd, n, final(k).q))", ["C10", "C12", "C06", "C03", "C02"]),
+               "&& exists|n: nat| skipped(*old(k), old(k).q, fd, n, final(k).q))", ["C10", "C12", "C06", "C03", "C02", "C07", "C20"]),
         Clause("unix.recv.loop/ensures.every_first_packet_receive_in_the_callers_mode",
                "old(k).rx_modes.is_prefix_of(final(k).rx_modes)\n"
                "&& (forall|i: int| old(k).rx_modes.len() <= i < final(k).rx_modes.len() ==> (#[trigger] final(k).rx_modes[i]) == (fd, mode_code(blocking_mode)))", ["C10"]),
@@ -213,7 +213,7 @@ UNIT = Unit(
             ("impl OsIpcReceiver", [receiver_from_fd]),
             ("impl OsOpaqueIpcChannel", [opaque_from_fd, opaque_to_sender, opaque_to_receiver]),
             (None, [cmsg_align, recv_message, recv])],
-    props=["C01", "C02", "C03", "C04", "C05", "C06", "C10", "C11", "C12", "C13", "C18"],
+    props=["C01", "C02", "C03", "C04", "C05", "C06", "C07", "C10", "C11", "C12", "C13", "C18", "C20"],
     prelude_clauses={
         "std.set_len/requires.le_capacity": ["C18", "C13"],
         "unix.UnixCmsg.recv/requires.header_iovec_is_usize": ["C18", "C01"],
